@@ -420,6 +420,16 @@ def run(ctx, prog):
     n7 = no_failure_after_canonical(ctx, prog, 'C03.R7', ('TieredEngine::insert', 'TieredEngine::delete', 'TieredEngine::batch_delete', 'TieredEngine::update_metadata'))
     ctx.floor('C03.R7', 'canonical mutation calls in the four engine mutators', n7, 4, 'one per mutator')
 
+    # ------------------------------------------------------------------ R8 a failed rotation leaves a listed writer active
+    ctx.rule('C03.R8', 'every mutator logs a rotation error and continues "with the current WAL": the operations acknowledged after such a failure are durable only if the '
+                       'active writer is still a segment the MANIFEST lists. In rotate_wal_if_needed the writer is switched only after the new segment was created and '
+                       'listed (Manifest::save succeeded), and nothing can fail after the switch (same analysis as C01.R5)')
+    from rules import C01 as _C01
+    eff8 = Effects(prog)
+    eff8.define('manifest_save', 'Manifest::save')
+    eff8.define('wal_create', 'WalWriter::create_with_error_handler', 'WalWriter::create')
+    _C01.rotation_publish_order(ctx, prog, eff8, 'C03.R8')
+
     # ------------------------------------------------------------------ R5 single funnel
     ctx.rule('C03.R5', 'who-may-write: only HnswBackend::insert pushes to the document store vectors outside constructors / '
                        'compaction / recovery; only TieredEngine::{insert, bulk_load_cold_tier, reconcile_drained_hot_tier_documents} '
